@@ -53,7 +53,7 @@ Definition c_k4 : chart :=
 Lemma c_ok_wf : wf_chart parseK jsonK sanK semverK restK c_ok /\ no_bom c_ok.
 Proof.
   split.
-  - constructor; simpl; auto; try reflexivity. split; [reflexivity|discriminate].
+  - constructor; simpl; auto; try reflexivity.
   - constructor; simpl; try reflexivity; repeat constructor.
 Qed.
 
@@ -101,14 +101,12 @@ Definition walkK : list file :=
 Lemma agree_example :
   wf_cname "k4" = true /\ Forall (fun f => wf_fname (f_name f) = true) walkK /\
   fits 1000 100 (map (fun f => tar_entry ("k4" ++ "/" ++ f_name f) (f_data f)) (kept ignK walkK)) /\
-  kept ignK walkK <> [] /\ schema_ok (trimmed (kept ignK walkK)) /\
+  kept ignK walkK <> [] /\
   exists c, load_dir_walk mergeK lock_decK parseK untarK sanK semverK restK 1000 100 ignK 1 walkK = inr c /\
             c_templates c = [mkFile "templates/a.yaml" "a: 1"] /\ c_files c = [mkFile ".helmignore" "README.md"].
 Proof.
   split; [reflexivity|]. split; [repeat constructor|]. split.
   { split; [repeat constructor; vm_compute; discriminate|vm_compute; reflexivity]. }
-  split; [vm_compute; discriminate|]. split.
-  { intros f Hf He p Hn. vm_compute in Hf.
-    repeat (destruct Hf as [<-|Hf]; [simpl in He; try discriminate|]); try contradiction. }
+  split; [vm_compute; discriminate|].
   eexists. split; [vm_compute; reflexivity|]. split; reflexivity.
 Qed.
